@@ -5,6 +5,7 @@ import (
 	_ "verifmc/props/c06"
 	_ "verifmc/props/c07"
 	_ "verifmc/props/c08"
+	_ "verifmc/props/c14"
 	_ "verifmc/props/c16"
 
 	"verifmc/internal/xs"
